@@ -116,7 +116,9 @@ def run_tlc(module, cfg=None, *, cwd=SPECS, workers=4, timeout=300, metadir=None
     if r.violated is None and r.rc not in (0,):
         # parse error, semantic error, evaluation error ...
         tail = "\n".join(r.out.splitlines()[-40:])
-        raise ToolError("TLC failed on %s/%s rc=%s\n%s" % (module, cfg, r.rc, tail))
+        ex = ToolError("TLC failed on %s/%s rc=%s\n%s" % (module, cfg, r.rc, tail))
+        ex.out = r.out
+        raise ex
     return r
 
 
